@@ -26,7 +26,7 @@ for i in ids:
         na.append({"property_id": i, "reason": "check not built yet in this session (work in progress; the technique applies, see DESIGN.md section 4)"})
 man = {
     "version": 1,
-    "setup_cmd": "cd /verif/harness && GOFLAGS=-mod=mod GOPROXY=off GOSUMDB=off GOTOOLCHAIN=local go test -c -tags verif -o /verif/.build/props.verif.test ./props && GOFLAGS=-mod=mod GOPROXY=off GOSUMDB=off GOTOOLCHAIN=local go test -c -race -tags verif -o /verif/.build/props.race.test ./props",
+    "setup_cmd": "cd /verif/harness && GOFLAGS=-mod=mod GOPROXY=off GOSUMDB=off GOTOOLCHAIN=local go test -c -tags verif -o /verif/.build/props.verif.test ./props && GOFLAGS=-mod=mod GOPROXY=off GOSUMDB=off GOTOOLCHAIN=local go test -c -race -tags verif -o /verif/.build/props.race.test ./props && GOFLAGS=-mod=mod GOPROXY=off GOSUMDB=off GOTOOLCHAIN=local go test -c -tags verif,noasmtest -o /verif/.build/props.verif_noasmtest.test ./props",
     "hooks": {
         "guard": "verif (Go build tag)",
         "enable": "go test -tags verif (harness module replaces github.com/intel/fastgo with /repo); acceleration level forced per process with FASTGO_VERIF_ARCHLEVEL",
